@@ -10,8 +10,7 @@ HARNESSES = [
                      'after every call exactly root..tip carry BLOCK_ACTIVE, appliedBlockCount agrees, tip is BLOCK_CAN_BE_APPLIED, SP blocks exist iff referenced',
                      'a block reporting BLOCK_CAN_BE_APPLIED can be activated again; returning to the first target reproduces the digest recorded there'],
      'rungs': {'quick': [{'defines': ['NED=3', 'NEND=1'], 'bound': 'ED tree: every shape on 3 blocks; optional AddBlock per block with symbolic SP parent; 1 endorsement with symbolic containing/endorsed/block-of-proof; one failing command at any block/group/position; history setState, {setState|comparePopScore}, re-activation probe, return', 'timeout': 280}],
-               'thorough': [{'defines': ['NED=4', 'NEND=1'], 'bound': 'ED tree 4 blocks, 1 endorsement, otherwise as quick', 'timeout': 3000},
-                            {'defines': ['NED=3', 'NEND=2'], 'bound': 'ED tree 3 blocks, 2 endorsements', 'timeout': 1500}]}},
+               'thorough': [{'defines': ['NED=3', 'NEND=2'], 'bound': 'ED tree 3 blocks, 2 endorsements, otherwise as quick', 'timeout': 900}]}},
 ]
 import importlib.util as _ilu
 _rp = _ilu.spec_from_file_location('realspec', os.path.join(os.path.dirname(os.path.abspath(__file__)), '..', 'real', 'spec.py'))
